@@ -16,6 +16,19 @@ thread_local! {
     static DRIFT: Cell<bool> = const { Cell::new(false) };
     static LAST: Cell<(u64, u32)> = const { Cell::new((u64::MAX, 0)) };
     static READS: Cell<u32> = const { Cell::new(0) };
+    static SKEW: Cell<std::time::Duration> = const { Cell::new(std::time::Duration::ZERO) };
+}
+
+/// Time that passes *inside* a poll: synchronous code under test that takes a while (a slow
+/// event listener) is modelled by the harness-side callback calling this; every later read
+/// of the monotonic clock on this thread is that much further on. (tokio's own paused clock
+/// is not moved: timers fire by virtual time as before.) Reset by `enable`.
+pub fn add_skew(d: std::time::Duration) {
+    SKEW.with(|s| s.set(s.get().saturating_add(d)));
+}
+
+pub fn skew() -> std::time::Duration {
+    SKEW.with(|s| s.get())
 }
 
 /// Drifting mode: within one virtual instant every further read of the clock returns one
@@ -32,6 +45,7 @@ pub fn set_drift(on: bool) {
 pub const BASE_SECS: i64 = 1_000_000;
 
 pub fn enable(origin: tokio::time::Instant) {
+    SKEW.with(|s| s.set(std::time::Duration::ZERO));
     ORIGIN.with(|o| o.set(Some(origin)));
     ENABLED.with(|e| e.set(true));
 }
@@ -60,6 +74,7 @@ pub unsafe fn clock_gettime_impl(clk: libc::clockid_t, tp: *mut libc::timespec) 
         BUSY.with(|b| b.set(false));
         if let Some(mut d) = r {
             CALLS.with(|c| c.set(c.get() + 1));
+            d = d.saturating_add(SKEW.with(|s| s.get()));
             if DRIFT.with(|x| x.get()) {
                 let key = (d.as_secs(), d.subsec_nanos());
                 let k = if LAST.with(|l| l.get()) == key {
